@@ -532,6 +532,7 @@ pub fn all() -> Vec<(&'static str, &'static str, fn() -> R)> {
         ("C14", "lock_depth", c14_lock_depth),
         ("C15", "small_cycle", c15_small_cycle),
         ("C11", "length_near_u64_max", c11_length_near_u64_max),
+        ("C11", "failed_removal_rollback", c11_failed_removal_rollback),
         ("C02", "mini_stream_small", c02_mini_stream_small),
         ("C02", "mini_stream_limit", c02_mini_stream_limit),
     ]
@@ -1040,4 +1041,88 @@ pub fn c11_length_near_u64_max() -> R {
         }
     }
     Ok(())
+}
+
+
+/// A stream whose start sector is redirected into the directory chain (second or first
+/// directory sector): accepted by permissive open.  Removing it frees a sector the directory
+/// still uses, so later directory writes fail half-way; every removal that then fails must
+/// leave the in-memory sibling tree usable: lookups of present, absent and in-between names,
+/// listings and further removals return (Ok or Err) - no panic, no hang.
+pub fn c11_failed_removal_rollback() -> R {
+    use std::sync::mpsc;
+    let mut failures: Vec<String> = Vec::new();
+    let orders: [&[&str]; 4] = [&["m", "d", "t", "h"], &["e", "b", "g", "d", "c"], &["m", "d", "t", "h", "f"], &["h", "d", "m", "b", "f", "e"]];
+    for (oi, order) in orders.iter().enumerate() {
+        for which_dir_sector in 0..2usize {
+            for victim in order.iter() {
+                let what = format!("V3 names {:?}, stream zz redirected to directory sector #{}, remove zz then {}", order, which_dir_sector, victim);
+                let (tx, rx) = mpsc::channel();
+                let what2 = what.clone();
+                let order2: Vec<String> = order.iter().map(|s| s.to_string()).collect();
+                let victim2 = victim.to_string();
+                std::thread::spawn(move || {
+                    let r = catch_unwind(AssertUnwindSafe(|| {
+                        let (buf, mut c) = fresh(Version::V3);
+                        for n in order2.iter() {
+                            c.create_stream(format!("/{}", n)).unwrap();
+                        }
+                        c.create_stream("/zz").unwrap().write_all(&[0x5a; 5000]).unwrap();
+                        drop(c);
+                        let mut bytes = buf.snapshot();
+                        let sl = 512usize;
+                        let so = |id: u32| (id as usize + 1) * sl;
+                        let d0 = u32::from_le_bytes(bytes[48..52].try_into().unwrap());
+                        let f0 = u32::from_le_bytes(bytes[76..80].try_into().unwrap());
+                        let d1 = u32::from_le_bytes(bytes[so(f0) + 4 * d0 as usize..so(f0) + 4 * d0 as usize + 4].try_into().unwrap());
+                        if d1 >= 128 {
+                            return;
+                        }
+                        let target = if which_dir_sector == 0 { d0 } else { d1 };
+                        // find zz's entry in the two directory sectors
+                        let mut z = None;
+                        for base in [so(d0), so(d1)] {
+                            for k in 0..4 {
+                                let o = base + 128 * k;
+                                if bytes[o..o + 6] == [b'z', 0, b'z', 0, 0, 0] && bytes[o + 66] == 2 {
+                                    z = Some(o);
+                                }
+                            }
+                        }
+                        let z = match z { Some(z) => z, None => return };
+                        bytes[z + 116..z + 120].copy_from_slice(&target.to_le_bytes());
+                        let mut c = match CompoundFile::open(SharedBuf::new(bytes)) {
+                            Ok(c) => c,
+                            Err(_) => return,
+                        };
+                        let _ = c.remove_stream("/zz");
+                        let _ = c.remove_stream(format!("/{}", victim2));
+                        for n in ["a", "b", "c", "d", "e", "f", "g", "h", "i", "m", "n", "t", "u", "zz"] {
+                            let _ = c.exists(format!("/{}", n));
+                            let _ = c.is_stream(format!("/{}", n));
+                        }
+                        let _ = c.read_root_storage().count();
+                        let _ = c.walk().count();
+                        for n in order2.iter() {
+                            let _ = c.remove_stream(format!("/{}", n));
+                            let _ = c.exists("/f");
+                            let _ = c.exists("/e");
+                        }
+                        let _ = c.create_stream("/k").map(|_| ());
+                        let _ = c.walk().count();
+                    }));
+                    let _ = tx.send(r.map_err(|_| format!("panic in {}", what2)));
+                });
+                match rx.recv_timeout(std::time::Duration::from_secs(10)) {
+                    Ok(Ok(())) => {}
+                    Ok(Err(e)) => failures.push(e),
+                    Err(_) => failures.push(format!("hang (a call did not return within 10 s) in {} [case {}]", what, oi)),
+                }
+                if failures.len() >= 3 {
+                    return Err(failures.join("; "));
+                }
+            }
+        }
+    }
+    if failures.is_empty() { Ok(()) } else { Err(failures.join("; ")) }
 }
